@@ -35,6 +35,30 @@ def run(res, tier, seed=13):
                     setattr(m, c.name, c.ranges[unit][1])
                     m.get_raw(c.name)
                     cls.controllers[c.name].pattern_value(m, c.ranges[unit][1])
+        # the lenient mode is public API: out-of-range assignments there are kept (or not), but say nothing about the class
+        from rv.errors import override_raise_controller_value_errors
+        for c in t.controllers:
+            if c.kind in ("range", "compact", "no_offset"):
+                for v in (c.max + 1, c.min - 1, c.max + 1000):
+                    try:
+                        with override_raise_controller_value_errors(False):
+                            setattr(m, c.name, v)
+                        res.count("lenient_out_of_range_assignments")
+                    except Exception:
+                        res.count("lenient_out_of_range_assignments_raised")
+                try:
+                    setattr(m, c.name, c.default_value())
+                except Exception:
+                    pass
+        # every representable integer of every multi-bit option, also those that name no enumeration member
+        for o in t.options:
+            if o.size > 1:
+                for v in range(1 << o.size):
+                    try:
+                        setattr(m, o.name, v)
+                        res.count("option_integer_assignments")
+                    except Exception:
+                        res.count("option_integer_assignments_raised")
         # in-place edits of every list-valued payload of this instance
         for attr in ("nv_curve", "vv_curve", "np_curve", "curve", "harmonic_freqs", "harmonic_volumes", "harmonic_widths", "custom_waveform"):
             ch = getattr(m, attr, None)
